@@ -323,7 +323,7 @@ fn case(m: &mut Mon, r: &mut Rng, _idx: u64) {
             let (x, xi) = (ubig(&a), ibig(na, &a));
             let (mx, mxi) = (nat(&a), int(na, &a));
             let p = r.word();
-            let which = r.below(12);
+            let which = r.below(14);
             let d = || format!("prim a={}{} p={:#x} which={}", if na { "-" } else { "" }, gen::hex(&a), p, which);
             m.check("prim", &format!("{}/w{}", gen::size_class(gen::nlimbs(&a)), which), nontriv.map(|h| h ^ p), &d, || {
                 match which {
@@ -338,6 +338,27 @@ fn case(m: &mut Mon, r: &mut Rng, _idx: u64) {
                     8 => chk_i(&((p as i32) - &xi), &(BigInt::from(p as i32) - &mxi), "i32-i"),
                     9 => chk_i(&(&xi * (p as i16)), &(&mxi * (p as i16)), "i*i16"),
                     10 => chk_i(&(&xi * ((p as i128) << 30)), &(&mxi * ((p as i128) << 30)), "i*i128"),
+                    12 => {
+                        // Sum over iterators of values and of references, including the empty one
+                        let (y, yi) = (ubig(&b), ibig(nb, &b));
+                        let (my, myi) = (nat(&b), int(nb, &b));
+                        chk_u(&[x.clone(), y.clone(), x.clone()].into_iter().sum::<UBig>(), &(&mx + &my + &mx), "sum of values")?;
+                        chk_u(&[&x, &y].into_iter().sum::<UBig>(), &(&mx + &my), "sum of references")?;
+                        chk_i(&[&xi, &yi, &yi].into_iter().sum::<IBig>(), &(&mxi + &myi + &myi), "signed sum of references")?;
+                        chk_i(&[xi.clone()].into_iter().sum::<IBig>(), &mxi, "signed sum of one value")?;
+                        chk_u(&Vec::<UBig>::new().into_iter().sum::<UBig>(), &BigUint::zero(), "empty sum")?;
+                        chk_i(&Vec::<&IBig>::new().into_iter().sum::<IBig>(), &BigInt::zero(), "empty signed sum")
+                    }
+                    13 => {
+                        let (y, yi) = (ubig(&b), ibig(nb, &b));
+                        let (my, myi) = (nat(&b), int(nb, &b));
+                        chk_u(&[&x, &y].into_iter().product::<UBig>(), &(&mx * &my), "product of references")?;
+                        chk_u(&[x.clone(), y.clone()].into_iter().product::<UBig>(), &(&mx * &my), "product of values")?;
+                        chk_i(&[xi.clone(), yi.clone()].into_iter().product::<IBig>(), &(&mxi * &myi), "signed product of values")?;
+                        chk_i(&[&xi, &yi, &xi].into_iter().product::<IBig>(), &(&mxi * &myi * &mxi), "signed product of references")?;
+                        chk_u(&Vec::<&UBig>::new().into_iter().product::<UBig>(), &BigUint::from(1u8), "empty product")?;
+                        chk_i(&Vec::<IBig>::new().into_iter().product::<IBig>(), &BigInt::from(1), "empty signed product")
+                    }
                     _ => {
                         let res = catch(|| &x - p);
                         if mx >= BigUint::from(p) {
